@@ -281,6 +281,43 @@ func TestDrv_C18(t *testing.T) {
 			}
 		}
 	}
+	// a positive ttl: after the answer of a host has changed and the attacker has been idle for many ttls (the entry was
+	// not used, so the refresher dropped it), the next dial goes to an address the host resolves to NOW
+	{
+		name := "shifting.test."
+		setIPs := func(ips ...string) {
+			var l []net.IP
+			for _, ip := range ips {
+				l = append(l, net.ParseIP(ip))
+			}
+			dnsMu.Lock()
+			dnsRecords[name] = l
+			dnsMu.Unlock()
+		}
+		setIPs("10.66.0.1")
+		rec := &dialRec{}
+		atk := vegeta.NewAttacker(append(newStack(rec, "dns", 40*time.Millisecond, nil), vegeta.Workers(1), vegeta.MaxWorkers(1), vegeta.Timeout(5*time.Second))...)
+		gate := make(chan struct{}, 1)
+		pacer := &countPacer{n: 2, gate: gate}
+		results := atk.Attack(vegeta.NewStaticTargeter(vegeta.Target{Method: "GET", URL: "http://shifting.test:8080/"}), pacer, 0, "c18")
+		<-results
+		first := rec.take()
+		setIPs("10.66.0.2", "10.66.0.3")
+		time.Sleep(1200 * time.Millisecond) // 30 ttls without a dial
+		gate <- struct{}{}
+		<-results
+		second := rec.take()
+		gate <- struct{}{}
+		for range results {
+		}
+		runs += 2
+		tr.Emit("Reset", KV{"mode": "dns", "sequential": true, "resolved": []KV{{"addr": "10.66.0.1:8080", "fam": 4}}, "mapped": []string{}, "passthru": false,
+			"half": 0, "host": "shifting.test", "target": "shifting.test:8080", "phase": "before the answer changed"})
+		tr.Emit("Attempt", KV{"k": 1, "dialed": first}) // (no End: one attempt says nothing about every address being used over time)
+		tr.Emit("Reset", KV{"mode": "dns", "sequential": true, "resolved": []KV{{"addr": "10.66.0.2:8080", "fam": 4}, {"addr": "10.66.0.3:8080", "fam": 4}}, "mapped": []string{},
+			"passthru": false, "half": 0, "host": "shifting.test", "target": "shifting.test:8080", "phase": "answer changed, 30 ttls idle"})
+		tr.Emit("Attempt", KV{"k": 1, "dialed": second})
+	}
 	// one ConnectTo option value given to two attackers that take turns: each rotates over the replacements on its own
 	{
 		repl := []string{"10.7.1.1:7001", "10.7.1.2:7002"}
